@@ -1,4 +1,272 @@
-(* C15 — property theorems (placeholder while the proofs are being written) *)
-From Coq Require Import List ZArith QArith.
-From Gst Require Import C15.Model C15.ModelOp.
-Example C15_placeholder : True. Proof. exact I. Qed.
+(* C15 — property theorems only. Each is closed by [exact] of a lemma of Proofs_*.v. *)
+From Coq Require Import List Arith ZArith QArith Qabs Bool Lia.
+From Gst Require Import lib.QAux lib.LinAlgQ C15.gen.MSS C15.Model C15.ModelOp C15.Spec
+                        C15.Proofs_op C15.Proofs_tile C15.Proofs_proj C15.Proofs_std.
+Import ListNotations.
+Local Open Scope Q_scope.
+
+(* ================================================================== projection on a turbo meshing *)
+
+(* What MeshETurbo::_addWeights guarantees for an accepted simplex (corners cs = coordinates of its grid nodes):
+   the raw weights lam solve the barycentric system exactly (sum 1, sum lam_c x_c = x), hence reproduce every affine
+   function; each lies in [-1e-6, 1+1e-6]; the stored weight is the raw one clamped to [0,1] (no renormalisation: it
+   differs from the raw weight by at most 1e-6); when the point is in the simplex (raw weights >= 0) nothing is clamped:
+   the stored weights are non-negative, sum to one and reproduce every affine function exactly. *)
+Theorem C15_weights_affine : forall t sb icas indg0 coor idx lam w m,
+  add_weights t sb icas indg0 coor = Wok idx lam w m ->
+  let cs := simplex_coords t icas indg0 in
+  bary_system (length coor) cs coor lam /\
+  Forall2 (fun l wc => - eps6 <= l /\ l <= 1 + eps6 /\ wc = clamp01 l /\ 0 <= wc /\ wc <= 1 /\ Qabs (wc - l) <= eps6) lam w /\
+  (forall a b, wapply (affine (length coor) a b) lam cs == affine (length coor) a b coor) /\
+  (all_nonneg lam -> w = lam /\ wsum w == 1 /\
+                     forall a b, wapply (affine (length coor) a b) w cs == affine (length coor) a b coor).
+Proof. exact weights_affine. Qed.
+Print Assumptions C15_weights_affine.
+
+(* the barycentric system has no other solution than the one computed *)
+Theorem C15_weights_unique : forall cs x l l',
+  bary cs x = Some l -> bary_system (length x) cs x l' -> Forall2 Qeq l' l.
+Proof. exact bary_unique. Qed.
+Print Assumptions C15_weights_unique.
+
+(* A non-empty row is made of the weights of one accepted simplex of the meshing: its grid nodes exist and are active *)
+Theorem C15_row_is_simplex : forall t sb coor idx lam w,
+  p_found (proj_point t sb coor) = Some (idx, lam, w) ->
+  p_located (proj_point t sb coor) = true /\
+  exists indg icas m, (icas < nper_cell (t_ndim t))%nat /\ add_weights t sb icas indg coor = Wok idx lam w m.
+Proof. exact proj_point_found. Qed.
+Print Assumptions C15_row_is_simplex.
+
+(* the simplices of a cell are tried in the order of the table and the first accepted one wins *)
+Theorem C15_first_accepted_wins : forall t sb indg0 coor cases m0 f m,
+  add_element_loop t sb indg0 coor cases m0 = (Some f, m) ->
+  exists pre icas post m', cases = pre ++ icas :: post /\
+    add_weights t sb icas indg0 coor = Wok (fst (fst f)) (snd (fst f)) (snd f) m' /\
+    forall j, In j pre -> exists mj, add_weights t sb j indg0 coor = Wfail mj.
+Proof. exact add_element_loop_found. Qed.
+Print Assumptions C15_first_accepted_wins.
+
+(* For ndim = 1, 2, 3 and every polarity, the simplices of the generated table tile the reference cell:
+   every point of the cell lies in one of them (non-negative barycentric coordinates) ... *)
+Theorem C15_simplices_tile : forall ndim ipol u,
+  (1 <= ndim <= 3)%nat -> (ipol < npol ndim)%nat -> length u = ndim -> in_unit_cube u ->
+  exists icas l, (icas < nper_cell ndim)%nat /\ bary (unit_corners ndim ipol icas) u = Some l /\ all_nonneg l.
+Proof. exact tile_cover. Qed.
+Print Assumptions C15_simplices_tile.
+
+(* ... two different simplices have no common interior point ... *)
+Theorem C15_simplices_disjoint : forall ndim ipol u i1 i2 l1 l2,
+  (1 <= ndim <= 3)%nat -> (ipol < npol ndim)%nat -> length u = ndim ->
+  (i1 < nper_cell ndim)%nat -> (i2 < nper_cell ndim)%nat -> i1 <> i2 ->
+  bary (unit_corners ndim ipol i1) u = Some l1 -> bary (unit_corners ndim ipol i2) u = Some l2 ->
+  all_pos l1 -> all_pos l2 -> False.
+Proof. exact tile_disjoint. Qed.
+Print Assumptions C15_simplices_disjoint.
+
+(* ... none is degenerate and their volumes add up to the volume of the cell (|det| sums to ndim!) *)
+Theorem C15_simplices_volumes :
+  det_sum 1 0 == facdim 1 /\ det_sum 2 0 == facdim 2 /\ det_sum 2 1 == facdim 2 /\ det_sum 3 0 == facdim 3 /\
+  dets_nonzero 1 0 = true /\ dets_nonzero 2 0 = true /\ dets_nonzero 2 1 = true /\ dets_nonzero 3 0 = true.
+Proof. exact tile_volumes. Qed.
+Print Assumptions C15_simplices_volumes.
+
+(* Lifted to any cell given as the affine image T of the reference cell (T sends the table offsets to the grid nodes
+   and the local coordinates u to the sample): the sample has non-negative exact weights in one of the cell's simplices *)
+Theorem C15_cell_covered : forall ndim ipol (T : list Q -> list Q) A t0 u,
+  (1 <= ndim <= 3)%nat -> (ipol < npol ndim)%nat -> length u = ndim -> in_unit_cube u ->
+  (forall c idim, (idim < ndim)%nat -> nth idim (T c) 0 == affine ndim (A idim) (t0 idim) c) ->
+  exists icas l, (icas < nper_cell ndim)%nat /\ all_nonneg l /\
+                 bary_system ndim (map T (unit_corners ndim ipol icas)) (T u) l.
+Proof. exact cell_covered. Qed.
+Print Assumptions C15_cell_covered.
+
+(* and _addWeights accepts such a simplex, with exactly these weights, when its nodes are on the grid and active
+   and the simplex is not degenerate *)
+Theorem C15_inside_accepted : forall t sb icas indg0 coor l',
+  Forall (fun r => (r <? 0)%Z = false) (simplex_ranks t icas indg0) ->
+  Forall (fun r => (r <? 0)%Z = false) (map (atoR sb) (simplex_ranks t icas indg0)) ->
+  bary (simplex_coords t icas indg0) coor <> None ->
+  bary_system (length coor) (simplex_coords t icas indg0) coor l' -> all_nonneg l' ->
+  exists lam m, add_weights t sb icas indg0 coor = Wok (map (atoR sb) (simplex_ranks t icas indg0)) lam lam m /\ Forall2 Qeq l' lam.
+Proof. exact add_weights_accepts. Qed.
+Print Assumptions C15_inside_accepted.
+(* Not proved (kept visible): that the grid nodes of a cell of a C16 grid are the affine image required by
+   C15_cell_covered (linearity of Grid::indicesToCoordinate in the index vector), which would chain the two theorems above
+   into "every sample of an active cell gets a row" without hypothesis; the correspondence exercises it on every run. *)
+Definition C15_inside_gets_row_partial := (C15_cell_covered, C15_inside_accepted).
+
+(* a sample outside the grid, or none of whose candidate simplices is accepted, has no weights *)
+Theorem C15_outside_empty : forall t sb coor,
+  (fst (C16.Model.c2i (t_grid t) coor false eps6) = true ->
+   p_located (proj_point t sb coor) = false /\ p_found (proj_point t sb coor) = None) /\
+  ((forall indg icas, (icas < nper_cell (t_ndim t))%nat -> exists m, add_weights t sb icas indg coor = Wfail m) ->
+   p_found (proj_point t sb coor) = None).
+Proof. intros t sb coor. split; [exact (proj_point_outside t sb coor)|exact (proj_point_rejected t sb coor)]. Qed.
+Print Assumptions C15_outside_empty.
+
+(* Rows and samples: when every sample is located on the grid, row k of the matrix is the row of sample k ... *)
+Theorem C15_rows_aligned : forall t pts k,
+  all_located t (selbis t) pts -> (k < length pts)%nat ->
+  nth k (fst (proj_turbo t pts)) [] = row_spec t (selbis t) (nth k pts []).
+Proof. exact rows_aligned. Qed.
+Print Assumptions C15_rows_aligned.
+
+(* ... but not in general: MeshETurbo::resetProjMatrix does not advance its row counter for a sample outside the grid,
+   so the rows of the following samples are shifted. Witness: 3x3 unit grid, samples (5, 1/4) and (1/4, 1/4):
+   the row of the first sample (outside) holds the weights of the second. Replayed on the implementation by the check. *)
+Definition witness_grid : turbo :=
+  {| t_grid := {| C16.Model.g_nx := [3; 3]%Z; C16.Model.g_x0 := [0; 0]; C16.Model.g_dx := [1; 1];
+                  C16.Model.g_rot := C16.Model.rot_identity 2 |};
+     t_pol := false; t_sel := [] |}.
+Theorem C15_rows_aligned_refuted : exists t pts k,
+  (k < length pts)%nat /\
+  p_located (proj_point t (selbis t) (nth k pts [])) = false /\
+  nth k (fst (proj_turbo t pts)) [] <> [].
+Proof.
+  exists witness_grid, [[5; 1 # 4]; [1 # 4; 1 # 4]], 0%nat.
+  split; [cbn; lia|]. split; [vm_compute; reflexivity|vm_compute; discriminate].
+Qed.
+Print Assumptions C15_rows_aligned_refuted.
+
+(* ================================================================== projection on a standard meshing *)
+
+(* AMesh::_weightsInMesh on the corners of a mesh: accepted weights are non-negative, each at most 1 + eps and they
+   sum to one within eps (the code takes absolute values of volume ratios: no negative weight, no clamping) *)
+Theorem C15_standard_weights : forall ndim cs coor ws m,
+  weights_in_mesh ndim cs coor (mesh_unit ndim cs) eps5 = (Some ws, m) ->
+  Forall (fun w => 0 <= w /\ w <= 1 + eps5) ws /\ Qabs (lsumQ ws - 1) <= eps5.
+Proof. exact weights_in_mesh_ok. Qed.
+Print Assumptions C15_standard_weights.
+
+(* the volume ratios are the absolute values of the exact barycentric coordinates ... *)
+Theorem C15_standard_ratio : forall cs x l i,
+  bary cs x = Some l -> (i < length cs)%nat ->
+  sratio (length x) cs x (mesh_unit (length x) cs) i == Qabs (nth i l 0).
+Proof. exact sratio_bary. Qed.
+Print Assumptions C15_standard_ratio.
+
+(* ... so a point of the mesh (exact coordinates >= 0) is accepted with exactly its barycentric weights:
+   they sum to one and reproduce every affine function *)
+Theorem C15_standard_inside_exact : forall cs x l,
+  bary cs x = Some l -> all_nonneg l ->
+  exists ws m, weights_in_mesh (length x) cs x (mesh_unit (length x) cs) eps5 = (Some ws, m) /\ Forall2 Qeq ws l /\
+               lsumQ ws == 1 /\
+               forall a b, wapply (affine (length x) a b) ws cs == affine (length x) a b x.
+Proof. exact weights_in_mesh_inside. Qed.
+Print Assumptions C15_standard_inside_exact.
+
+(* MeshEStandard::resetProjMatrix forces the dimensions of the matrix only when the last apex received no weight:
+   trailing samples outside the meshing then lose their (empty) rows. Witness: unit square cut in two triangles,
+   samples (3/4, 9/10) and (5, 1/4): one row for two samples. Replayed on the implementation by the check. *)
+Definition witness_smesh : smesh :=
+  {| s_ndim := 2; s_apices := [[0; 0]; [1; 0]; [0; 1]; [1; 1]]; s_meshes := [[0; 1; 2]; [2; 1; 3]]%nat |}.
+Theorem C15_standard_rows_refuted : exists s pts, fst (fst (proj_standard s pts)) <> length pts.
+Proof. exists witness_smesh, [[3 # 4; 9 # 10]; [5; 1 # 4]]. vm_compute. discriminate. Qed.
+Print Assumptions C15_standard_rows_refuted.
+
+(* ================================================================== polynomial of an operator, precision matrix *)
+
+(* ClassicalPolynomial::evalOp (Horner from the highest degree) applies sum_j c_j S^j, for every size and degree *)
+Theorem C15_horner : forall n Op c inv i,
+  c <> [] -> (i < n)%nat -> vget (eval_op n Op c inv) i == poly_apply n (get Op) c (vget inv) i.
+Proof. exact eval_op_spec. Qed.
+Print Assumptions C15_horner.
+
+(* evalOpCumul / addEvalOp add the same polynomial to the destination; evalOpTraining's first stored vector is its value *)
+Theorem C15_horner_cumul : forall n Op c inv outv i,
+  c <> [] -> (i < n)%nat ->
+  vget (eval_op_cumul n Op c inv outv) i == vget outv i + poly_apply n (get Op) c (vget inv) i.
+Proof. exact eval_op_cumul_spec. Qed.
+Print Assumptions C15_horner_cumul.
+Theorem C15_horner_training : forall n Op c inv i,
+  c <> [] -> (i < n)%nat ->
+  vget (hd [] (eval_op_training n Op c inv)) i == poly_apply n (get Op) c (vget inv) i.
+Proof. exact eval_op_training_hd. Qed.
+Print Assumptions C15_horner_training.
+
+(* PrecisionOpCs::_build_Q assembles  Q_ij = Lambda_i (sum_k c_k S^k)_ij Lambda_j *)
+Theorem C15_Q_entries : forall n S lam c i j,
+  c <> [] -> (i < n)%nat -> (j < n)%nat ->
+  get (build_Q n S lam c) i j == Qspec n (get S) (vget lam) c i j.
+Proof. exact build_Q_entries. Qed.
+Print Assumptions C15_Q_entries.
+
+(* the matrix-free operator (PrecisionOp::_addEvalPower, power ONE; also through the training branch) and the assembled
+   matrix apply identically to every vector *)
+Theorem C15_free_eq_assembled : forall n S lam c v i,
+  c <> [] -> (i < n)%nat ->
+  vget (eval_direct_cs n S lam c v) i == vget (add_eval_power n S lam c v) i /\
+  vget (add_eval_power_training n S lam c v) i == vget (add_eval_power n S lam c v) i.
+Proof. intros. split; [apply free_eq_assembled|apply training_eq_plain]; assumption. Qed.
+Print Assumptions C15_free_eq_assembled.
+
+(* S symmetric => Q symmetric *)
+Theorem C15_Q_symmetric : forall n S lam c,
+  c <> [] -> fsym n (get S) -> fsym n (get (build_Q n S lam c)).
+Proof. exact build_Q_sym. Qed.
+Print Assumptions C15_Q_symmetric.
+
+(* S symmetric positive semi-definite and non-negative coefficients => Q positive semi-definite;
+   if moreover c_0 > 0 and no Lambda_i vanishes, Q is positive definite.
+   (The Matern coefficients are the binomial coefficients of (1 + S)^p: non-negative, c_0 = 1; a product of factors
+   (S + k^2 I), k^2 >= 0, has non-negative coefficients too.) *)
+Theorem C15_Q_psd : forall n S lam c,
+  c <> [] -> fsym n (get S) -> fpsd n (get S) -> coeffs_nonneg c -> fpsd n (get (build_Q n S lam c)).
+Proof. exact build_Q_psd. Qed.
+Print Assumptions C15_Q_psd.
+Theorem C15_Q_pd : forall n S lam c,
+  fsym n (get S) -> fpsd n (get S) -> coeffs_nonneg c -> 0 < nth 0 c 0 ->
+  (forall i, (i < n)%nat -> ~ vget lam i == 0) -> fpd n (get (build_Q n S lam c)).
+Proof. exact build_Q_pd. Qed.
+Print Assumptions C15_Q_pd.
+
+(* ================================================================== non-vacuity *)
+(* a 4x3 grid rotated by the matrix (3/5 -4/5; 4/5 3/5), polarized, one node masked: an interior sample is accepted in the
+   second simplex of its cell with weights (3/8, 1/8, 1/2) and a sample of a masked cell has no row *)
+Definition ex_turbo : turbo :=
+  {| t_grid := {| C16.Model.g_nx := [4; 3]%Z; C16.Model.g_x0 := [10; -2]; C16.Model.g_dx := [2; 1 # 2];
+                  C16.Model.g_rot := C16.Model.rot_of_matrix 2 [[3 # 5; - (4 # 5)]; [4 # 5; 3 # 5]] |};
+     t_pol := true; t_sel := [true; true; true; true; true; true; true; true; true; true; true; false] |}.
+Example C15_nonvacuous_turbo :
+  let sb := selbis ex_turbo in
+  (* node of local coordinates (1/4, 5/8) in the cell (0,0) *)
+  let x := C16.Model.i2c (t_grid ex_turbo) [0; 0]%Z [1 # 4; 5 # 8] true in
+  let y := C16.Model.i2c (t_grid ex_turbo) [2; 1]%Z [1 # 2; 1 # 4] true in
+  (exists idx lam w m, add_weights ex_turbo sb 1 [0; 0]%Z x = Wok idx lam w m /\ all_nonneg lam /\ w = lam /\ idx = [0; 4; 5]%Z) /\
+  (exists m, add_weights ex_turbo sb 0 [0; 0]%Z x = Wfail m) /\
+  p_found (proj_point ex_turbo sb y) = None /\ p_located (proj_point ex_turbo sb y) = true /\
+  all_located ex_turbo sb [x; y].
+Proof.
+  vm_compute. split; [|split; [|split; [|split]]].
+  - eexists _, _, _, _. split; [reflexivity|]. split; [|split; reflexivity]. repeat split; discriminate.
+  - eexists. reflexivity.
+  - reflexivity.
+  - reflexivity.
+  - repeat constructor.
+Qed.
+
+(* a symmetric positive semi-definite shift operator (path graph Laplacian), Lambda = (1, 2, 1/2), P = (1 + S)^2 *)
+Definition ex_S : mat := [[1; -1; 0]; [-1; 2; -1]; [0; -1; 1]].
+Lemma ex_S_sym : fsym 3 (get ex_S).
+Proof. intros i j Hi Hj. destruct i as [|[|[|?]]]; try lia; destruct j as [|[|[|?]]]; try lia; vm_compute; reflexivity. Qed.
+Lemma ex_S_psd : fpsd 3 (get ex_S).
+Proof.
+  intro x. unfold fdot, fmv. cbn [sumn]. unfold get, ex_S. cbn [nth].
+  assert (E : forall a b c : Q, 0 + a * (0 + 1 * a + -1 * b + 0 * c) + b * (0 + -1 * a + 2 * b + -1 * c) + c * (0 + 0 * a + -1 * b + 1 * c)
+                               == (a - b) * (a - b) + (b - c) * (b - c)) by (intros; ring).
+  rewrite E. assert (0 <= (x 0%nat - x 1%nat) * (x 0%nat - x 1%nat)) by nra. assert (0 <= (x 1%nat - x 2%nat) * (x 1%nat - x 2%nat)) by nra.
+  Lqa.lra.
+Qed.
+Example C15_nonvacuous_operator :
+  fpd 3 (get (build_Q 3 ex_S [1; 2; 1 # 2] [1; 2; 1])) /\
+  fsym 3 (get (build_Q 3 ex_S [1; 2; 1 # 2] [1; 2; 1])) /\
+  mmv 3 3 (build_Q 3 ex_S [1; 2; 1 # 2] [1; 2; 1]) [1; -3; 5] = add_eval_power 3 ex_S [1; 2; 1 # 2] [1; 2; 1] [1; -3; 5].
+Proof.
+  split; [|split].
+  - apply C15_Q_pd; [exact ex_S_sym|exact ex_S_psd| | |].
+    + intro k. destruct k as [|[|[|[|?]]]]; vm_compute; discriminate.
+    + vm_compute. reflexivity.
+    + intros i Hi. destruct i as [|[|[|?]]]; try lia; vm_compute; discriminate.
+  - apply C15_Q_symmetric; [discriminate|exact ex_S_sym].
+  - vm_compute. reflexivity.
+Qed.
